@@ -28,7 +28,7 @@ static validatorFunction rt_pick_validator(void)
 
 /* one area with exact-size storage of arbitrary content */
 #ifdef RT_ASIZE
-#define RT_AREA_SIZE(name) uint32_t name = RT_ASIZE;
+#define RT_AREA_SIZE(name) IN(uint32_t, name) ASSUME(name <= RT_ASIZE);
 #else
 #define RT_AREA_SIZE(name) IN(uint32_t, name)
 #endif
@@ -92,15 +92,15 @@ static validatorFunction rt_pick_validator(void)
   else if (in_idx < in_entries) { RT_ENTRY(ent, a, in_e) t->entry[in_idx] = ent; } \
   g_cell = (g_k < a->size) ? &a->mem[g_k] : &rt_elsewhere;
 
-/* The entry array.  Default: a block of exactly in_entries entries, any
- * 32-bit count.  With RT_EMAX: a block of RT_EMAX entries (constant size, much
- * cheaper for the solver) whose LAST in_entries elements are the table, so
- * that t->entry + in_entries is still exactly one past the end of the object. */
+/* The entry array: a block of exactly in_entries entries.  Default: any 32-bit
+ * count.  With RT_EMAX the count is capped (the block stays exact-size): the
+ * solver then no longer has to reason about idx * sizeof(RegisterEntry) for
+ * 32-bit idx, which dominated the run time. */
 #ifdef RT_EMAX
 #define RT_ENTRIES_BLOCK() \
   ASSUME(in_entries <= RT_EMAX); \
-  RT_ENTRY_BLOCK(in_entry_block, RT_EMAX) \
-  RegisterEntry *in_entry_first = in_entry_block + (RT_EMAX - in_entries);
+  RT_ENTRY_BLOCK(in_entry_block, in_entries) \
+  RegisterEntry *in_entry_first = in_entry_block;
 #else
 #define RT_ENTRIES_BLOCK() \
   RT_ENTRY_BLOCK(in_entry_block, in_entries) \
@@ -279,48 +279,159 @@ void h_register_get(void)
 
 /* L1: a successful typed set followed by a get returns the identical value
  * (bit-identical, also for floats) of the register's type; the get can only
- * fail because the device refuses the read. */
-void h_lemma_set_get(void)
+ * fail because the device refuses the read.  One harness per set variant. */
+#define H_LEMMA_SET_GET(name, SETFN, CHECKED) \
+void name(void) \
+{ \
+  RT_TABLE() \
+  RT_VALUE(v) \
+  IN_MEM(in_outmem, sizeof(RegisterValue)) \
+  RegisterValue *out = (RegisterValue *)in_outmem; \
+  RegisterAccess s = SETFN(t, in_idx, v); \
+  uint8_t rd = st_rd_verdict; \
+  RegisterAccess g = register_get(t, in_idx, out); \
+  if (s.code == REG_ACCESS_SUCCESS) { \
+    RegisterType ty = t->entry[in_idx].type; \
+    CHECK(IMPLIES(CHECKED, v.type == ty), "a checked set succeeds only with a value of the register's type"); \
+    CHECK(IMPLIES(!(t->entry[in_idx].area->read == st_area_read && ST_REFUSES(rd)), g.code == REG_ACCESS_SUCCESS), \
+          "get after a successful set succeeds (unless the device refuses the read)"); \
+    CHECK(IMPLIES(g.code == REG_ACCESS_SUCCESS, out->type == ty), "get returns the register's type"); \
+    CHECK(IMPLIES(g.code == REG_ACCESS_SUCCESS, spec_bits(ty, out->value) == spec_bits(ty, v.value)), \
+          "get returns the identical value (bit pattern)"); \
+  } \
+  VERIF_CANARY(); \
+}
+
+H_LEMMA_SET_GET(h_lemma_set_get, register_set, 1)
+H_LEMMA_SET_GET(h_lemma_set_unsafe_get, register_set_unsafe, 0)
+
+/* L2: with a correctly typed value the unchecked variant stores exactly what
+ * the checked variant stores -- both store the image of the value (two
+ * harnesses with one replaced call each; a single harness with both calls in
+ * sequence proves the same but takes four times as long) -- and the unchecked
+ * variant is refused for a subset of the reasons of the checked one: it still
+ * refuses bad handles and non-finite floats. */
+void h_lemma_checked_stores(void)
 {
   RT_TABLE()
-  RT_VALUE(v) IN(_Bool, in_checked)
-  IN_MEM(in_outmem, sizeof(RegisterValue))
-  RegisterValue *out = (RegisterValue *)in_outmem;
-  RegisterAccess s = in_checked ? register_set(t, in_idx, v) : register_set_unsafe(t, in_idx, v);
-  uint8_t rd = st_rd_verdict;
-  RegisterAccess g = register_get(t, in_idx, out);
+  RT_VALUE(v)
+  RegisterAccess s = register_set(t, in_idx, v);
   if (s.code == REG_ACCESS_SUCCESS) {
-    RegisterType ty = t->entry[in_idx].type;
-    CHECK(IMPLIES(in_checked, v.type == ty), "a checked set succeeds only with a value of the register's type");
-    CHECK(IMPLIES(!(t->entry[in_idx].area->read == st_area_read && ST_REFUSES(rd)), g.code == REG_ACCESS_SUCCESS),
-          "get after a successful set succeeds (unless the device refuses the read)");
-    CHECK(IMPLIES(g.code == REG_ACCESS_SUCCESS, out->type == ty), "get returns the register's type");
-    CHECK(IMPLIES(g.code == REG_ACCESS_SUCCESS, spec_bits(ty, out->value) == spec_bits(ty, v.value)),
-          "get returns the identical value (bit pattern)");
+    CHECK(v.type == t->entry[in_idx].type, "checked: only a value of the register's type is stored");
+    CHECK(rt_bits(t, in_idx) == spec_bits(v.type, v.value), "checked: the stored words are the image of the value");
   }
   VERIF_CANARY();
 }
 
-/* L2: with a correctly typed value the unchecked variant stores exactly what
- * the checked variant stores, and succeeds whenever the checked one does */
-void h_lemma_checked_unchecked(void)
+void h_lemma_unchecked_stores(void)
 {
   RT_TABLE()
   RT_VALUE(v)
-  RegisterAccess s1 = register_set(t, in_idx, v);
-  uint64_t w1 = RT_ADDRESSED(t, in_idx) ? rt_bits(t, in_idx) : 0u;
-  uint8_t wr = st_wr_verdict;
-  RegisterAccess s2 = register_set_unsafe(t, in_idx, v);
-  uint64_t w2 = RT_ADDRESSED(t, in_idx) ? rt_bits(t, in_idx) : 0u;
-  if (s1.code == REG_ACCESS_SUCCESS) {
-    CHECK(IMPLIES(!(t->entry[in_idx].area->write == st_area_write && ST_REFUSES(wr)), s2.code == REG_ACCESS_SUCCESS),
-          "the unchecked variant accepts what the checked one accepts");
-    CHECK(IMPLIES(s2.code == REG_ACCESS_SUCCESS, w1 == w2), "both variants store identical words");
-    CHECK(w1 == spec_bits(v.type, v.value), "the stored words are the image of the value");
-  }
-  /* the unchecked variant still refuses bad handles and non-finite floats */
-  CHECK(IMPLIES(RT_INIT(t) && in_idx >= t->entries, s2.code == REG_ACCESS_NOENTRY), "unchecked: no such entry");
-  CHECK(IMPLIES(RT_ADDRESSED(t, in_idx) && !SPEC_FLOAT_OK(t->entry[in_idx].type, v.value), s2.code != REG_ACCESS_SUCCESS),
+  RegisterAccess s = register_set_unsafe(t, in_idx, v);
+  if (s.code == REG_ACCESS_SUCCESS && v.type == t->entry[in_idx].type)
+    CHECK(rt_bits(t, in_idx) == spec_bits(v.type, v.value),
+          "unchecked, correctly typed: the stored words are the image of the value (= what the checked variant stores)");
+  CHECK(IMPLIES(RT_INIT(t) && in_idx >= t->entries, s.code == REG_ACCESS_NOENTRY), "unchecked: no such entry");
+  CHECK(IMPLIES(RT_ADDRESSED(t, in_idx) && !SPEC_FLOAT_OK(t->entry[in_idx].type, v.value), s.code != REG_ACCESS_SUCCESS),
         "unchecked: non-finite floats refused");
   VERIF_CANARY();
 }
+
+/* the unchecked variant is refused for a subset of the reasons of the checked
+ * one (a statement about the two contracts; no call) */
+void h_lemma_reasons_subset(void)
+{
+  RT_TABLE()
+  RT_VALUE(v)
+  unsigned rc = rt_set_reasons(t, in_idx, v, true);
+  unsigned ru = rt_set_reasons(t, in_idx, v, false);
+  CHECK((ru & ~rc) == 0u, "unchecked: refused only for reasons for which the checked variant is refused too");
+  CHECK((rc & ~ru & ~RT_R_RANGE) == 0u, "the variants differ only in the type/constraint check");
+  VERIF_CANARY();
+}
+
+/* ---- handle bound (plain harness on the real code, no contracts) --------------
+ * "a handle that is not a register of the table is reported as 'no such entry',
+ * also by the unchecked variant", for every handle >= entries including
+ * entries itself (one past the end of the exact-size entry block).  This is
+ * part of the contracts of register_set/_unsafe/_get as well; the separate
+ * harness exists because an out-of-bounds entry read makes hundreds of
+ * obligations of the big targets fail at once (slow to report). */
+void h_handle_bound(void)
+{
+  RT_TABLE()
+  RT_VALUE(v) IN(int, in_which)
+  IN_MEM(in_outmem, sizeof(RegisterValue))
+  ASSUME(RT_INIT(t) && in_idx >= in_entries);
+  RegisterAtom before = *g_cell;
+  RegisterAccess r;
+  if (in_which == 0)
+    r = register_set(t, in_idx, v);
+  else if (in_which == 1)
+    r = register_set_unsafe(t, in_idx, v);
+  else
+    r = register_get(t, in_idx, (RegisterValue *)in_outmem);
+  CHECK(r.code == REG_ACCESS_NOENTRY, "handle >= entries: no such entry");
+  CHECK(*g_cell == before, "handle >= entries: storage unchanged");
+  VERIF_CANARY();
+}
+
+/* ======================= C05 ================================================== */
+uint64_t g_old_bits;
+
+/* bit operations: the ghost g_old_bits is COMPUTED here (decode of the words
+ * the register holds before the call) */
+#define H_BITOP(fn) \
+void h_##fn(void) \
+{ \
+  RT_TABLE() \
+  RT_VALUE(v) \
+  g_old_bits = RT_ADDRESSED(t, in_idx) ? rt_bits(t, in_idx) : 0u; \
+  fn(t, in_idx, v); \
+  VERIF_CANARY(); \
+}
+
+H_BITOP(register_bit_set)
+H_BITOP(register_bit_clear)
+
+/* A second register g (handle in_gi != in_idx) of the same table, in the same
+ * area or in a second area b, not sharing storage with register in_idx; the
+ * ghost cell may also lie in area b. */
+#define RT_SECOND() \
+  IN(uint32_t, in_gi) IN(_Bool, in_g_same_area) IN(_Bool, in_cell_in_b) \
+  ASSUME(RT_INIT(t) && !RT_DURING(t) && in_gi < in_entries && in_gi != in_idx); \
+  RegisterArea *area_a = a; \
+  RegisterArea *b; { RT_AREA(a, in_b) b = a; } \
+  RegisterArea *ga = in_g_same_area ? area_a : b; \
+  { RT_ENTRY(gent, ga, in_g) t->entry[in_gi] = gent; } \
+  if (in_idx < in_entries) ASSUME(rt_disjoint(t, in_idx, in_gi)); \
+  if (in_cell_in_b && g_k < b->size) g_cell = &b->mem[g_k];
+
+/* Step obligations of the invariant for one checked operation OP on register
+ * in_idx (the call is replaced by the operation's contract):
+ *   Inv(g) before ==> Inv(g) after for every other register g -- Inv(g) is a
+ *   function of entry g (no operation assigns the entry array) and of g's
+ *   words, so the obligation is "the words of g are unchanged";
+ *   the register the operation wrote satisfies its constraint: Inv(in_idx);
+ *   a refused operation leaves every word unchanged (ghost cell in either
+ *   area or elsewhere), hence every Inv. */
+#define H_C05_STEP(name, OPCALL) \
+void name(void) \
+{ \
+  RT_TABLE() \
+  RT_VALUE(v) \
+  RT_SECOND() \
+  g_old_bits = RT_ADDRESSED(t, in_idx) ? rt_bits(t, in_idx) : 0u; \
+  const uint64_t g_bits_before = rt_bits(t, in_gi); \
+  const RegisterAtom cell_before = *g_cell; \
+  RegisterAccess s = OPCALL; \
+  CHECK(rt_bits(t, in_gi) == g_bits_before, "the words of every other register g are unchanged (Inv(g) preserved)"); \
+  CHECK(IMPLIES(s.code == REG_ACCESS_SUCCESS, RT_ADDRESSED(t, in_idx) && rt_inv(t, in_idx)), \
+        "the register the operation wrote satisfies its constraint"); \
+  CHECK(IMPLIES(s.code != REG_ACCESS_SUCCESS, *g_cell == cell_before), "a refused operation leaves every word unchanged"); \
+  VERIF_CANARY(); \
+}
+
+H_C05_STEP(h_c05_step_set, register_set(t, in_idx, v))
+H_C05_STEP(h_c05_step_bit_set, register_bit_set(t, in_idx, v))
+H_C05_STEP(h_c05_step_bit_clear, register_bit_clear(t, in_idx, v))
